@@ -46,6 +46,14 @@ func init() {
 	}}
 	properties["T20"] = &propertyDef{Decides: "debug", Run: func(c *rules.Ctx) []report.Obligation { return c.SEC("SEC") }}
 	properties["T02"] = &propertyDef{Decides: "debug", Run: func(c *rules.Ctx) []report.Obligation { return c.ORD("ORD", "LOAD", "RENDER", "SELECT", "GRAPH") }}
+	properties["T01"] = &propertyDef{Decides: "debug", Run: func(c *rules.Ctx) []report.Obligation {
+		o := c.XOR("XOR")
+		o = append(o, c.PIPE("PIPE", nil)...)
+		o = append(o, c.ERR("ERR", "LOAD")...)
+		o = append(o, c.CYC("CYC")...)
+		o = append(o, c.TERM("TERM", "LOAD", "RENDER", "SELECT", "GRAPH", "DOTENV", "TEMPLATE")...)
+		return o
+	}}
 	properties["C01"] = &propertyDef{
 		Decides:    "no unchecked type assertion on input-derived data in code reachable from the load entry points outside the proved / justified / known set (PANIC-TA)",
 		NotDecided: "termination, stack bounds, nil dereferences, panics inside dependencies",
